@@ -1233,6 +1233,10 @@ def call_method(R, recv, name, args, kw, node):
         cm = R.ctx.custom_method(recv, name)
         if cm is not None:
             return cm(R, recv, args, kw, node)
+        ek = "%s.%s" % (k, name)
+        if ek in R.ctx.c.externals:
+            # a method of a builtin value type the library does not model: its declared external (e.g. bytes.splitlines)
+            return R.ctx.apply_ext(R, ek, R.ctx.c.externals[ek], args, kw, node, None, recv=recv)
         raise Unsupported("method %s.%s" % (k, name))
     if not isinstance(node, ast.Call) or not isinstance(node.func, ast.Attribute) or node.func.attr != name:
         # synthesise a node so that models reading node.func.attr keep working
